@@ -1,6 +1,8 @@
 package imapclient
 
 import (
+	"fmt"
+
 	"github.com/emersion/go-imap/v2"
 )
 
@@ -23,6 +25,11 @@ func (c *Client) UIDExpunge(uids imap.UIDSet) *ExpungeCommand {
 }
 
 func (c *Client) handleExpunge(seqNum uint32) error {
+	if seqNum == 0 {
+		// ExpungeCommand.Next uses 0 to signal the end of the stream
+		return fmt.Errorf("imapclient: server returned sequence number 0 in EXPUNGE response")
+	}
+
 	c.mutex.Lock()
 	if c.state == imap.ConnStateSelected && c.mailbox.NumMessages > 0 {
 		c.mailbox = c.mailbox.copy()
